@@ -1,22 +1,8 @@
-(* Case checker additions for the language-chain passes: which correspondence cases have an
-   implementation result that depends on Go's map iteration order, and which ones run an
+(* Case checker additions for the language-chain passes: which correspondence cases run an
    in-place pass on a result in which an earlier pass left shared pointers (the functional
    models do not reproduce the effect of that sharing). *)
 From Cog Require Export Model.Spec15.
 Local Open Scope list_scope.
-
-Fixpoint map_order_sensitive (ps : list pass) (ss : schemas) : bool :=
-  match ps with
-  | [] => false
-  | p :: r =>
-      (match p with PDisjunctionInferMapping => dim_ambiguous ss | _ => false end)
-      || match run_pass p ss with
-         | Ok ss' => map_order_sensitive r ss'
-         | _ => false
-         end
-  end.
-Definition case_map_order (c : pcase) : bool :=
-  let '(input, ps, _, _) := c in map_order_sensitive ps input.
 
 (* passes that never write through a payload pointer another place could share *)
 Definition harmless_after_sharing (p : pass) : bool :=
